@@ -150,6 +150,53 @@ def mk_tx(t):
     return m
 
 
+def set_tx(m, t, inplace=False):
+    """give an EXISTING TxMsg object the fields of record t (attribute assignment, as a caller that re-uses a message object
+    does); inplace: a burst of equal length is overwritten element by element instead of being replaced"""
+    ver, fn, tn, pwr, burst = t
+    m.ver, m.fn, m.tn, m.pwr = int(ver), opt_int(fn), opt_int(tn), opt_int(pwr)
+    b = burst_octets(burst)
+    if inplace and b is not None and m.burst is not None and len(m.burst) == len(b):
+        for i, x in enumerate(b):
+            m.burst[i] = x
+    else:
+        m.burst = None if b is None else bytearray(b)
+
+
+def set_rx(m, t, inplace=False):
+    ver, fn, tn, rssi, toa, mod, nope, tset, tsc, ci, burst = t
+    m.ver, m.fn, m.tn = int(ver), opt_int(fn), opt_int(tn)
+    m.rssi = opt_int(rssi)
+    m.toa256 = opt_int(toa)
+    m.mod_type = None if mod == "-" else Modulation[mod]
+    m.nope_ind = (nope == "1")
+    m.tsc_set = opt_int(tset)
+    m.tsc = opt_int(tsc)
+    m.ci = opt_int(ci)
+    b = burst_octets(burst)
+    if inplace and b is not None and m.burst is not None and len(m.burst) == len(b):
+        nb = array('b', b)
+        for i in range(len(nb)):
+            m.burst[i] = nb[i]
+    else:
+        m.burst = None if b is None else array('b', b)
+
+
+def second_use(m, kind, legacy):
+    """what the SECOND use of one message object yields: gen_msg() octets or the exception, and what send_msg() emits"""
+    try:
+        g = "ok " + show_octets(m.gen_msg(legacy))
+    except Exception as e:
+        g = type(e).__name__
+    dif = make_if()
+    try:
+        dif.send_msg(m, legacy)
+        sn = "ok " + " ".join([str(len(dif.sock.sent))] + [show_octets(d) for d in dif.sock.sent])
+    except Exception as e:
+        sn = type(e).__name__
+    return g + " | " + sn
+
+
 def mk_rx(t):
     ver, fn, tn, rssi, toa, mod, nope, tset, tsc, ci, burst = t
     m = RxMsg(fn=opt_int(fn), tn=opt_int(tn), ver=int(ver))
@@ -445,6 +492,29 @@ def handle(tok):
         m.parse_msg(mk_rx(tok[2:13]).gen_msg(tok[1] == "1"))
         m.parse_msg(mk_rx(tok[14:25]).gen_msg(tok[13] == "1"))
         return ok(show_rx(m))
+    # oracle only: ONE message object is encoded (and sent) with the fields of a first record, then given the fields of a
+    # second record (mode a: attributes assigned; mode i: burst overwritten in place where the length allows) and used again
+    if verb in ("trxd.tx.gen2", "trxd.rx.gen2"):
+        tx = ".tx." in verb
+        n = 5 if tx else 11
+        mode = tok[1]
+        l1, r1, l2, r2 = tok[2] == "1", tok[3:3 + n], tok[3 + n] == "1", tok[4 + n:4 + 2 * n]
+        m = mk_tx(r1) if tx else mk_rx(r1)
+        try:
+            m.gen_msg(l1)
+        except Exception:
+            pass
+        try:
+            make_if().send_msg(m, l1)
+        except Exception:
+            pass
+        (set_tx if tx else set_rx)(m, r2, inplace=(mode == "i"))
+        return second_use(m, "tx" if tx else "rx", l2)
+    if verb in ("trxd.tx.gen1", "trxd.rx.gen1"):
+        # the reference: a fresh object with the fields of the record
+        tx = ".tx." in verb
+        m = mk_tx(tok[2:]) if tx else mk_rx(tok[2:])
+        return second_use(m, "tx" if tx else "rx", tok[1] == "1")
     if verb == "trxd.tx.trans":
         return ok(show_rx(mk_tx(tok[2:]).trans(opt_int(tok[1]))))
     if verb == "trxd.rx.trans":
